@@ -306,10 +306,30 @@ func runPipeSeq(c *ctx) error {
 						note = "multi-byte mask"
 					}
 				} else {
-					// MIC made with a foreign or the all-zero key, or an unknown address
+					// MIC made with a foreign or the all-zero key, an unknown address, a frame of a
+					// downlink type that verifies under the device's own key (the server's own
+					// downlink overheard by another gateway), or a magic value in the MIC field
 					key := r.Bytes(16)
 					addr := d.addr
-					switch r.Intn(3) {
+					mt := 2
+					magic := []byte(nil)
+					switch r.Intn(6) {
+					case 3, 4:
+						if d.joined {
+							key = d.nwk.Key[:]
+							mt = []int{3, 5, 3, 5, 1, 6, 7}[r.Intn(7)]
+							note = fmt.Sprintf("message type %d, MIC valid under the device's key", mt)
+						} else {
+							key = make([]byte, 16)
+							magic = [][]byte{{0, 0, 0, 0}, {0xff, 0xff, 0xff, 0xff}}[r.Intn(2)]
+							note = "MIC field " + hx.H(magic) + " to a device without a session"
+						}
+					case 5:
+						magic = [][]byte{{0, 0, 0, 0}, {0xff, 0xff, 0xff, 0xff}, {0, 0, 0, 1}}[r.Intn(3)]
+						if d.joined {
+							key = d.nwk.Key[:]
+						}
+						note = "MIC field " + hx.H(magic)
 					case 0:
 						key = make([]byte, 16)
 						note = "MIC under the all-zero key"
@@ -323,12 +343,15 @@ func runPipeSeq(c *ctx) error {
 					default:
 						note = "MIC under a foreign key"
 					}
-					fr, err := ask1(c, fmt.Sprintf("dev.tx nwk=%s app=%s mt=2 addr=%d adr=0 aar=0 ack=0 b4=0 fcnt=%d fopts=- port=5 plain=%s",
-						hx.H(key), hx.H(d.apps.Key[:]), addr, d.fcntUp, hx.H(r.Bytes(4))))
+					fr, err := ask1(c, fmt.Sprintf("dev.tx nwk=%s app=%s mt=%d addr=%d adr=0 aar=0 ack=0 b4=0 fcnt=%d fopts=- port=5 plain=%s",
+						hx.H(key), hx.H(d.apps.Key[:]), mt, addr, d.fcntUp, hx.H(r.Bytes(4))))
 					if err != nil {
 						return err
 					}
 					raw = hx.UnH(strings.TrimPrefix(strings.Fields(fr)[0], "frame="))
+					if magic != nil {
+						copy(raw[len(raw)-4:], magic)
+					}
 				}
 				before, _, err := deliverBoth("corrupt: "+note, raw, nil, 0)
 				if err != nil {
@@ -519,6 +542,60 @@ func runPipeSeq(c *ctx) error {
 				return err
 			}
 			h.downlinkOracles(impl)
+		}
+		// C04: every single-bit corruption, truncation and extension of a valid join-request, one after
+		// the other, must leave no trace (the MIC covers every bit of the first 19 octets)
+		if !h.failed && (c.prop == "C04" && hi%6 == 0 || c.prop != "C04" && hi%40 == 0) {
+			for _, d := range h.devs {
+				if !d.otaa {
+					continue
+				}
+				nonce := r.Bytes(2)
+				fr, err := ask1(c, fmt.Sprintf("join.tx appkey=%s app=%s dev=%s nonce=%s", hx.H(d.appKey.Key[:]), hx.H(wire(d.app)), hx.H(wire(d.eui)), hx.H(nonce)))
+				if err != nil {
+					return err
+				}
+				valid := hx.UnH(strings.TrimPrefix(fr, "frame="))
+				var variants [][]byte
+				var notes []string
+				for bit := 0; bit < len(valid)*8; bit++ {
+					v := append([]byte{}, valid...)
+					v[bit/8] ^= 1 << uint(bit%8)
+					variants, notes = append(variants, v), append(notes, fmt.Sprintf("bit %d flipped", bit))
+				}
+				for n := 0; n < len(valid); n++ {
+					variants, notes = append(variants, append([]byte{}, valid[:n]...)), append(notes, fmt.Sprintf("truncated to %d", n))
+				}
+				for n := 1; n <= 3; n++ {
+					variants, notes = append(variants, append(append([]byte{}, valid...), r.Bytes(n)...)), append(notes, fmt.Sprintf("extended by %d", n))
+				}
+				before, err := rig.stateText(h.euis)
+				if err != nil {
+					return err
+				}
+				for i, v := range variants {
+					c.res.Eval()
+					c.res.Count("event=join-corruption-sweep")
+					h.ts++
+					gp := server.GatewayPacket{RawMessage: v, Radio: server.RadioContext{Frequency: 868.1, DataRate: "SF7BW125", Band: rig.band},
+						Gateway:    server.GatewayContext{GatewayEUI: gwEUI, GatewayHost: "127.0.0.1", GatewayPort: 1700, ProtocolVersion: 2},
+						ReceivedAt: time.Unix(0, h.ts)}
+					if err := rig.deliver(gp); err != nil {
+						h.fail("propfail", "pipeline-stuck", "C11: "+err.Error(), err.Error(), "")
+						break
+					}
+					after, err := rig.stateText(h.euis)
+					if err != nil {
+						return err
+					}
+					if after != before {
+						h.trace = append(h.trace, pipeEvent{Kind: "altered join-request: " + notes[i], Frame: hx.H(v)})
+						h.fail("propfail", "forged-join-honoured", "C04: an altered join-request ("+notes[i]+" of "+hx.H(valid)+") had an effect", after, before)
+						break
+					}
+				}
+				break
+			}
 		}
 		c.res.Class(fmt.Sprintf("devs=%d events=%d nonceoff=%v", len(h.devs), len(h.trace)/4, nonceOff))
 		if hi%23 == 0 {
